@@ -175,6 +175,36 @@ def history_run(ctx, rng, nd, length):
     return obs
 
 
+def detour_grid(ctx, nd):
+    """Deterministic change-and-restore detours on reused Derivative objects: every attribute (n incl. 0, order, method) is moved to every
+    other value of a small grid, the object is called there, the attribute is restored and the object is called at its own point; the
+    observation must equal the fresh evaluation of the ORIGINAL configuration."""
+    obs = []
+    fsrc = FUNCS[sorted(FUNCS)[0]]
+    f = eval(fsrc, {'np': np})
+    for method in ('central', 'forward', 'backward', 'complex'):
+        for n in (1, 2, 3):
+            for order in (2, 4):
+                s = {'class': 'Derivative', 'fsrc': fsrc, 'kw': {'method': method, 'n': n, 'order': order}, 'x': 0.9, 'step': None}
+                d = nd.Derivative(f, full_output=True, **s['kw'])
+                detours = [('n', v) for v in (0, 1, 2, 3, 4) if v != n] + [('order', v) for v in (2, 4, 6) if v != order]
+                if method not in ('complex',):
+                    detours += [('method', v) for v in ('central', 'forward', 'backward') if v != method]
+                for which, tmp in detours:
+                    old = getattr(d, which)
+                    setattr(d, which, tmp)
+                    try:
+                        d(0.7)
+                    except Exception:   # noqa
+                        pass
+                    setattr(d, which, old)
+                    val, info = d(s['x'])
+                    obs.append((dict(s, detour=[which, tmp]), {'value': hexify(val), 'error_estimate': hexify(info.error_estimate), 'final_step': hexify(info.final_step),
+                                                              'index': [int(i) for i in np.atleast_1d(info.index).ravel()]}))
+                    ctx.count(1, ('detour', which))
+    return obs
+
+
 def key_histories(ctx, rng, N):
     from numdifftools import finite_difference as fdm
     cases, descs = [], []
@@ -248,6 +278,7 @@ def run(ctx):
     all_obs = []
     for h in range(ctx.n(12, 120)):
         all_obs += history_run(ctx, rng, nd, int(rng.integers(4, 13)) if not ctx.thorough else int(rng.integers(8, 41)))
+    all_obs += detour_grid(ctx, nd)
     ref, err = fresh_reference([s for s, _ in all_obs], 'hist')
     if ref is None:
         ctx.brk('correspondence', 'fresh-interpreter reference evaluation failed', err)
